@@ -227,7 +227,7 @@ pub fn run(ctx: &Ctx) -> i32 {
         extra: Default::default(),
         exhaustive: None,
         min_signatures: 6,
-        required_counters: vec!["teardown_trials", "teardown_rpcs_ok_before", "rebind_checks", "sim_shutdowns", "sim_inflight_items", "sim_by_drop", "sim_by_shutdown_call"],
+        required_counters: vec!["teardown_trials", "teardown_rpcs_ok_before", "rebind_checks", "sim_shutdowns", "sim_inflight_items", "sim_by_drop", "sim_by_shutdown_call", "sim_api_bursts"],
     })
 }
 
@@ -368,6 +368,35 @@ pub fn sim_scenario(idx: usize, seed: u64) -> ScenarioResult {
                 }
                 true
             })));
+        }
+        // a burst of API calls issued in the same instant as the shutdown: every one of them is polled
+        // once (so its request sits in, or waits for, the connection manager's mailbox - more of them
+        // than the mailbox holds) and only then shutdown() is called
+        let api_burst = !by_drop && rng.gen_bool(0.35);
+        if api_burst {
+            use futures::StreamExt;
+            let mut burst = futures::stream::FuturesUnordered::new();
+            let n_calls = *[100usize, 127, 128, 129, 200, 400].get(rng.gen_range(0..6)).unwrap();
+            for i in 0..n_calls {
+                let n = s.net.clone();
+                let reachable = peers[2].addr;
+                let kind = rng.gen_range(0..3);
+                burst.push(async move {
+                    match kind {
+                        0 => n.connect(reachable).await.is_ok(),
+                        _ => n.connect(format!("10.98.{}.{}:1", 1 + i / 250, 1 + i % 250).parse::<std::net::SocketAddr>().unwrap()).await.is_ok(),
+                    }
+                });
+            }
+            // (one task cannot fill the mailbox within tokio's per-tick cooperative budget of 128
+            // operations; tasks on several workers of a real program can, so the budget is lifted
+            // for this one poll)
+            let _ = tokio::task::unconstrained(async { futures::poll!(burst.next()) }).await;
+            pending.push((format!("burst of {n_calls} connect() calls"), tokio::spawn(async move {
+                while burst.next().await.is_some() {}
+                true
+            })));
+            mix.push("api-burst-beyond-mailbox-capacity");
         }
         let connected_before: Vec<anemo::PeerId> = s.net.peers();
         let lists_s_before: Vec<usize> = peers.iter().enumerate().filter(|(_, p)| p.net.peers().contains(&s_id)).map(|(i, _)| i).collect();
@@ -539,6 +568,9 @@ pub fn sim_scenario(idx: usize, seed: u64) -> ScenarioResult {
         res.add("sim_shutdowns", 1);
         res.add("sim_inflight_items", mix.len() as u64);
         res.add(if by_drop { "sim_by_drop" } else { "sim_by_shutdown_call" }, 1);
+        if mix.contains(&"api-burst-beyond-mailbox-capacity") {
+            res.add("sim_api_bursts", 1);
+        }
         res
     });
     let panics = runner::take_panics();
